@@ -452,3 +452,35 @@ def trunc(pid):
         res.floor("create-mode opens", n, ctx.table("floors").get("trunc_sites", 0))
         return res
     return run
+
+
+def epochcentre(pid):
+    """R-EPOCH: times are kept to 100 ns, rounded toward the Unix epoch.  The conversions get that by measuring the
+    distance from UNIX_EPOCH and truncating the distance (integer division of a Duration).  Measured from any other
+    reference instant the same truncation rounds toward THAT instant: every pre-1970 time with a sub-100ns part
+    lands one tick early.  So every SystemTime::duration_since in the timestamp module is taken against UNIX_EPOCH."""
+    import re as _re
+    from prov import Prov as _Prov
+
+    def run(ctx):
+        res = RuleResult("R-EPOCH(%s)" % pid, "every SystemTime::duration_since in internal::timestamp measures from UNIX_EPOCH (the truncation of the distance then rounds toward the Unix epoch)")
+        n = 0
+        for f in ctx.fx.fns.values():
+            if not f.path.startswith("internal::timestamp::"):
+                continue
+            v = view(ctx, f)
+            pr = None
+            for bb, c in sorted(v.calls.items()):
+                if not _re.search(r"SystemTime::duration_since$", c.name) or len(c.term["args"]) < 2:
+                    continue
+                pr = pr or _Prov(f)
+                n += 1
+                ref = pr.operand(c.term["args"][1])
+                other = pr.operand(c.term["args"][0])
+                if _re.match(r"^const:(\w+::)*UNIX_EPOCH$", ref) or _re.match(r"^const:(\w+::)*UNIX_EPOCH$", other):
+                    res.ok({"function": f.path, "line": c.line, "measured_from": "UNIX_EPOCH"}, nontrivial=True)
+                else:
+                    res.fail(Finding(res.rule, "R-EPOCH/%s/distance-not-measured-from-unix-epoch" % f.path, "%s measures the time as a distance from %s instead of UNIX_EPOCH: truncating that distance to 100 ns rounds toward that instant, so a time before 1970 with a sub-100ns part is stored one tick too early (the contract is rounding toward the Unix epoch)" % (f.path.split("::")[-1], ref[:60]), f, c.term["span"]))
+        res.floor("duration_since calls in the timestamp module", n, ctx.table("floors").get("epoch_sites", 0))
+        return res
+    return run
